@@ -199,6 +199,12 @@ func listWitness(list []obj.ObjMesh) any {
 	var out []map[string]any
 	total := 0
 	for _, om := range list {
+		if n := om.Mesh.Indices().Len(); n > 300 { // a large mesh is described, not listed
+			total += n
+			out = append(out, map[string]any{"name": om.Name, "triangles": n / 3, "vertices": ref.AttrLen(om.Mesh),
+				"float3": om.Mesh.Float3Attributes(), "float2": om.Mesh.Float2Attributes(), "material_ranges": rangesOf(om.Mesh)})
+			continue
+		}
 		s := ref.Snap(om.Mesh)
 		total += len(s.Indices)
 		e := map[string]any{"name": om.Name, "indices": s.Indices, "material_ranges": rangesOf(om.Mesh)}
